@@ -3,7 +3,7 @@ from .. import core, gen
 from . import vcdfam
 
 PID = "C03"
-LEVEL = "translation_validation"
+LEVEL = "proof"
 RULE = ("VCD bodies satisfying the line discipline LD1-LD5 of DESIGN.md section 6/C03 (timestamps line-initial, one-line "
         "comments, value and id on one line, hand-over increasing, body ends in a newline, chunk 0 non-empty) are loaded with "
         "multi_thread=true inside rayon pools of 1..6 (and 16) threads with the MIN_CHUNK_SIZE override, so that the uniform "
